@@ -5,7 +5,9 @@
 #![allow(dead_code)]
 
 mod shared;
+mod r_c01;
 mod r_c04;
+mod r_c14;
 
 use shared::src_trait::VecSrc;
 
@@ -34,7 +36,11 @@ fn main() {
     let mut src = VecSrc::new(vals);
     let harness = args[1].as_str();
     let out = std::panic::catch_unwind(move || match harness {
+        h if h.starts_with("c01_stream_k1") => r_c01::stream(&mut src, 1, b"t"),
+        h if h.starts_with("c01_stream_k2") => r_c01::stream(&mut src, 2, b"t"),
+        h if h.starts_with("c01_stream_k3") => r_c01::stream(&mut src, 3, b""),
         "c04_reply_paths" => r_c04::reply_paths(&mut src),
+        "c14_execute_step" => r_c14::execute_step(&mut src),
         _ => Outcome {
             reproduced: false,
             role: String::new(),
